@@ -550,7 +550,15 @@ pub fn run_parts(ctx: &Ctx, parts: &[Box<dyn Part>]) -> RunReport {
     let start = Instant::now();
     let mut stats = Vec::new();
     let mut violation = None;
+    // development aid: VERIF_ONLY_PART=<substring> runs only the parts whose name contains it (the
+    // evidence of such a run is partial; refresh it afterwards)
+    let only = std::env::var("VERIF_ONLY_PART").ok();
     for part in parts {
+        if let Some(o) = &only {
+            if !part.name().contains(o.as_str()) {
+                continue;
+            }
+        }
         let t = Instant::now();
         let (s, v) = part.run(ctx);
         eprintln!(
